@@ -391,6 +391,7 @@ theorem reg_step (s : S) (ms : MState) (op : Op) (hop : op ≠ .end_ ∧ op ≠ 
   | hMin => exact ⟨fun hh => (by cases hh), heap_frame (.hMin) rfl h⟩
   | hDelmin => exact ⟨fun hh => (by cases hh), heap_frame (.hDelmin) rfl h⟩
   | hFree => exact ⟨fun hh => (by cases hh), heap_frame (.hFree) rfl h⟩
+  | hCreate els => exact ⟨fun hh => (by cases hh), heap_frame (.hCreate els) rfl h⟩
   | regImm i prio => exact ⟨fun _ => (regImm_step i prio h).1, (regImm_step i prio h).2⟩
   | cancelImm i => exact ⟨fun _ => (cancelImm_step i h).1, (cancelImm_step i h).2⟩
   | regTm i us => exact ⟨fun _ => (regTm_step i us h).1, (regTm_step i us h).2⟩
